@@ -1,5 +1,5 @@
-(* C09/ProofsNeg.v — hotspots(-X) = -hotspots(X) for the whole exact pipeline. *)
-Require Import Base.Prelude C09.Generated C09.Model C09.Proofs C09.ProofsStats C09.ProofsConv C09.ProofsMean.
+(* C09/ProofsNeg.v — hotspots(-X) = -hotspots(X) for the whole pipeline at the exact instance. *)
+Require Import Base.Prelude C09.Generated C09.Arith C09.Model C09.Proofs C09.ProofsStats C09.ProofsConv C09.ProofsMean.
 From Coq Require Import QArith Qabs Lqa.
 Open Scope Z_scope.
 
@@ -56,8 +56,49 @@ Proof. induction l as [|[q|] l IH]; cbn; congruence. Qed.
 Lemma wvals_gneg w : wvals (gneg w) = map Qopp (wvals w).
 Proof. unfold wvals, gneg. rewrite <- concat_map. apply somes_map_opp. Qed.
 
-Lemma calc_mean_nanmean w : calc_mean w = nanmean_list (wvals w).
-Proof. unfold calc_mean, nanmean_list. destruct (wvals w); reflexivity. Qed.
+(* ---- the reducers of the exact instance as list formulas ---- *)
+Lemma calc_mean_nanmean qs w : calc_mean (ExactArith qs) w = nanmean_list (wvals w).
+Proof. exact (nanmean_gen_exact qs (concat w)). Qed.
+
+Definition var_list (v : list Q) : xq :=
+  match nanmean_list v with
+  | None => None
+  | Some m => Some (qsum (map (fun x => (x - m) * (x - m))%Q v) / inject_Z (lenZ v))%Q
+  end.
+
+Lemma var_acc_exact (m : xq) flat : forall c n,
+  fold_left (fun st v => if oisnan v then st
+                         else (olift2 Qplus (fst st) (olift2 Qmult (olift2 Qminus v m) (olift2 Qminus v m)), snd st + 1))
+            flat (c, n) =
+  (fold_left (fun c x => olift2 Qplus c (olift2 Qmult (olift2 Qminus (Some x) m) (olift2 Qminus (Some x) m))) (somes flat) c,
+   n + lenZ (somes flat)).
+Proof.
+  induction flat as [|[q|] flat IH]; intros c n; cbn [fold_left somes oisnan].
+  - f_equal. unfold lenZ; cbn; lia.
+  - cbn [fst snd]. rewrite IH. f_equal. rewrite lenZ_cons. lia.
+  - apply IH.
+Qed.
+
+Lemma fold_sq_some m l : forall c,
+  fold_left (fun c x => olift2 Qplus c (olift2 Qmult (olift2 Qminus (Some x) (Some m)) (olift2 Qminus (Some x) (Some m)))) l (Some c) =
+  Some (fold_left Qplus (map (fun x => (x - m) * (x - m))%Q l) c).
+Proof. induction l as [|x l IH]; intros c; cbn [fold_left map olift2]; [reflexivity|apply IH]. Qed.
+
+Lemma calc_var_exact qs (w : grid xq) : calc_var (ExactArith qs) w = var_list (wvals w).
+Proof.
+  unfold calc_var. rewrite calc_mean_nanmean. unfold var_acc.
+  cbn [dadd dsub dmul ddiv dofZ dnan widen sisnan ExactArith].
+  change (inject_Z 0) with 0%Q.
+  rewrite var_acc_exact. cbn [fst snd]. unfold var_list, wvals.
+  cbn [T32 T64 ExactArith] in *.
+  generalize (somes (concat w)). intros v. destruct v as [|q l].
+  - reflexivity.
+  - assert (Hn : nanmean_list (q :: l) = Some (qsum (q :: l) / inject_Z (lenZ (q :: l)))%Q) by reflexivity.
+    rewrite Hn. rewrite fold_sq_some.
+    assert (Hpos : 0 < 0 + lenZ (q :: l)) by (rewrite lenZ_cons; pose proof (lenZ_nonneg l); lia).
+    destruct (0 + lenZ (q :: l) <=? 0) eqn:E; [lia|].
+    cbn [odiv]. rewrite Qeq_bool_inject_nonzero by lia. reflexivity.
+Qed.
 
 Lemma nanmean_opp v : xeq (nanmean_list (map Qopp v)) (xopp (nanmean_list v)).
 Proof.
@@ -68,52 +109,58 @@ Proof.
   rewrite lenZ_map, qsum_opp. unfold Qdiv. ring.
 Qed.
 
-Lemma calc_mean_gneg w : xeq (calc_mean (gneg w)) (xopp (calc_mean w)).
-Proof. rewrite !calc_mean_nanmean, wvals_gneg. apply nanmean_opp. Qed.
-
-Lemma calc_var_gneg w : xeq (calc_var (gneg w)) (calc_var w).
+Lemma var_list_opp v : xeq (var_list (map Qopp v)) (var_list v).
 Proof.
-  unfold calc_var. pose proof (calc_mean_gneg w) as H.
-  destruct (calc_mean (gneg w)) as [m'|], (calc_mean w) as [m|]; cbn in H; try contradiction; [|exact I].
-  unfold xeq. rewrite wvals_gneg, lenZ_map, map_map.
+  unfold var_list. pose proof (nanmean_opp v) as H.
+  destruct (nanmean_list (map Qopp v)) as [m'|], (nanmean_list v) as [m|]; cbn in H; try contradiction; [|exact I].
+  unfold xeq. rewrite lenZ_map, map_map.
   unfold qsum.
   rewrite (fold_Qplus_pointwise (fun x => (- x - m') * (- x - m'))%Q (fun x => (x - m) * (x - m))%Q) with (b := 0%Q);
     [reflexivity| |reflexivity].
   intros x. rewrite H. ring.
 Qed.
 
-Lemma calc_std_gneg qsqrt w : calc_std qsqrt (gneg w) = calc_std qsqrt w.
+Lemma qleb_compat c a b : (a == b)%Q -> qleb c a = qleb c b.
 Proof.
-  unfold calc_std. pose proof (calc_var_gneg w) as H.
-  destruct (calc_var (gneg w)) as [v'|], (calc_var w) as [v|]; cbn in H; try contradiction; [|reflexivity].
-  now rewrite (Qred_complete _ _ H).
+  intros H. destruct (qleb c a) eqn:E1, (qleb c b) eqn:E2; try reflexivity; q2prop; rewrite H in E1; lra.
+Qed.
+
+Lemma calc_mean_gneg qs w : xeq (calc_mean (ExactArith qs) (gneg w)) (xopp (calc_mean (ExactArith qs) w)).
+Proof. rewrite !calc_mean_nanmean, wvals_gneg. apply nanmean_opp. Qed.
+
+Lemma calc_std_gneg qs w : calc_std (ExactArith qs) (gneg w) = calc_std (ExactArith qs) w.
+Proof.
+  unfold calc_std. rewrite !calc_var_exact, wvals_gneg. cbn [dsqrt ExactArith].
+  pose proof (var_list_opp (wvals w)) as H.
+  destruct (var_list (map Qopp (wvals w))) as [v'|], (var_list (wvals w)) as [v|]; cbn in H; try contradiction; [|reflexivity].
+  unfold osqrt. rewrite (qleb_compat 0 v' v H). now rewrite (Qred_complete _ _ H).
 Qed.
 
 (* ---- the weighted sum ---- *)
-Lemma xadd_opp s' s u' u : xeq s' (xopp s) -> xeq u' (xopp u) -> xeq (xadd s' u') (xopp (xadd s u)).
+Lemma oadd_opp s' s u' u : xeq s' (xopp s) -> xeq u' (xopp u) -> xeq (olift2 Qplus s' u') (xopp (olift2 Qplus s u)).
 Proof.
   destruct s', s, u', u; cbn; try tauto. intros H1 H2. rewrite H1, H2. ring.
 Qed.
 
-Lemma loop2_xadd_opp (t t' : Z -> Z -> xq) (H : forall a b, xeq (t' a b) (xopp (t a b))) xs ys :
+Lemma loop2_oadd_opp (t t' : Z -> Z -> xq) (H : forall a b, xeq (t' a b) (xopp (t a b))) xs ys :
   forall s s', xeq s' (xopp s) ->
-  xeq (loop2 (fun n a b => xadd n (t' a b)) ys xs s') (xopp (loop2 (fun n a b => xadd n (t a b)) ys xs s)).
+  xeq (loop2 (fun n a b => olift2 Qplus n (t' a b)) ys xs s') (xopp (loop2 (fun n a b => olift2 Qplus n (t a b)) ys xs s)).
 Proof.
   unfold loop2. induction ys as [|a ys IH]; intros s s' Hs; cbn [fold_left]; [exact Hs|].
   apply IH. clear IH. revert s s' Hs.
   induction xs as [|b xs IHx]; intros s s' Hs; cbn [fold_left]; [exact Hs|].
-  apply IHx. apply xadd_opp; [exact Hs|apply H].
+  apply IHx. apply oadd_opp; [exact Hs|apply H].
 Qed.
 
-Lemma wsum_gneg data kernel wkx wky i j :
-  xeq (wsum (gneg data) kernel wkx wky i j) (xopp (wsum data kernel wkx wky i j)).
+Lemma wsum_gneg qs data kernel wkx wky i j :
+  xeq (wsum (ExactArith qs) (gneg data) kernel wkx wky i j) (xopp (wsum (ExactArith qs) data kernel wkx wky i j)).
 Proof.
-  unfold wsum.
-  apply (loop2_xadd_opp
-           (fun a b => xscale (get2 0%Q kernel a b) (get2 None data (i + a - wkx) (j + b - wky)))
-           (fun a b => xscale (get2 0%Q kernel a b) (get2 None (gneg data) (i + a - wkx) (j + b - wky)))).
+  unfold wsum. cbn [dadd dmul widen dnan snan dofZ ExactArith].
+  apply (loop2_oadd_opp
+           (fun a b => olift2 Qmult (get2 None kernel a b) (get2 None data (i + a - wkx) (j + b - wky)))
+           (fun a b => olift2 Qmult (get2 None kernel a b) (get2 None (gneg data) (i + a - wkx) (j + b - wky)))).
   - intros a b. rewrite get2_gneg.
-    destruct (get2 None data (i + a - wkx) (j + b - wky)); cbn; [ring|exact I].
+    destruct (get2 None kernel a b), (get2 None data (i + a - wkx) (j + b - wky)); cbn; try exact I. ring.
   - cbn. ring.
 Qed.
 
@@ -127,7 +174,7 @@ Proof.
   intros H. destruct (qltb a c) eqn:E1, (qltb b c) eqn:E2; try reflexivity; q2prop; rewrite H in E1; lra.
 Qed.
 
-Lemma hot_cell_compat a b : xeq a b -> hot_cell a = hot_cell b.
+Lemma hot_cell_compat qs a b : xeq a b -> hot_cell (ExactArith qs) a = hot_cell (ExactArith qs) b.
 Proof.
   destruct a as [a|], b as [b|]; cbn [xeq]; try tauto. intros H.
   rewrite !hot_cell_ladder. unfold qsgn.
@@ -138,14 +185,20 @@ Qed.
 
 Lemma z_opp m' m gm' gm gs :
   xeq m' (xopp m) -> xeq gm' (xopp gm) ->
-  xeq (xdiv (xsub m' gm') gs) (xopp (xdiv (xsub m gm) gs)).
+  xeq (odiv (olift2 Qminus m' gm') gs) (xopp (odiv (olift2 Qminus m gm) gs)).
 Proof.
-  destruct m', m, gm', gm, gs; cbn; try tauto. intros H1 H2. rewrite H1, H2. unfold Qdiv. ring.
+  destruct m', m, gm', gm, gs as [g|]; cbn; try tauto.
+  intros H1 H2. destruct (Qeq_bool g 0); cbn; [exact I|]. rewrite H1, H2. unfold Qdiv. ring.
 Qed.
 
 Section Negate.
-  Variable qsqrt : Q -> Q.
-  Variables (data : grid xq) (kernel : grid Q) (nx ny wkx wky : Z).
+  Variable qs : Q -> Q.
+  Notation EA := (ExactArith qs).
+  (* the two global reductions: any functions that are odd / even under negation *)
+  Variables gmean gstd : grid xq -> xq.
+  Hypothesis gmean_odd : forall X, xeq (gmean (gneg X)) (xopp (gmean X)).
+  Hypothesis gstd_even : forall X, gstd (gneg X) = gstd X.
+  Variables (data kernel : grid xq) (nx ny wkx wky : Z).
   Hypothesis Hwkx : 0 <= wkx.
   Hypothesis Hwky : 0 <= wky.
   Hypothesis Hdata : wf data nx ny.
@@ -153,45 +206,62 @@ Section Negate.
   Hypothesis Hnx : 0 < nx.
   Hypothesis Hny : 0 <= ny.
 
-  Theorem hotspots_negate :
-    hotspots_numpy qsqrt (gneg data) kernel =
-    option_map (map (map Z.opp)) (hotspots_numpy qsqrt data kernel).
+  Theorem hotspots_negate_gen :
+    hotspots_numpy EA gmean gstd (gneg data) kernel =
+    option_map (map (map Z.opp)) (hotspots_numpy EA gmean gstd data kernel).
   Proof.
-    unfold hotspots_numpy. rewrite calc_std_gneg.
-    set (nk := map (map (fun k => (k / qsum (concat kernel))%Q)) kernel).
-    assert (Hnk : wf nk (2 * wkx + 1) (2 * wky + 1)) by (apply wf_map; exact Hkernel).
+    unfold hotspots_numpy. rewrite gstd_even.
+    match goal with |- context [convolve_2d EA (gneg data) ?K] => remember K as nk eqn:Enk end.
+    assert (Hnk : wf nk (2 * wkx + 1) (2 * wky + 1)) by (rewrite Enk; apply wf_map; exact Hkernel).
+    clear Enk.
     assert (Hneg : wf (gneg data) nx ny) by (apply wf_map; exact Hdata).
-    destruct (match calc_std qsqrt data with Some s => Qeq_bool s 0 | None => false end); [reflexivity|].
+    destruct (deqb EA (widen EA (gstd data)) (dofZ EA 0)); [reflexivity|].
     cbn [option_map]. f_equal.
-    pose proof (conv_wf data nk nx ny wkx wky Hwkx Hwky Hdata Hnk Hnx Hny) as W1.
-    pose proof (conv_wf (gneg data) nk nx ny wkx wky Hwkx Hwky Hneg Hnk Hnx Hny) as W2.
+    pose proof (conv_wf EA data nk nx ny wkx wky Hwkx Hwky Hdata Hnk Hnx Hny) as W1.
+    pose proof (conv_wf EA (gneg data) nk nx ny wkx wky Hwkx Hwky Hneg Hnk Hnx Hny) as W2.
     unfold calc_hotspots. rewrite !map_map.
     apply grid_ext with (d := 0) (r := nx) (c := ny).
-    - rewrite <- map_map with (f := map (fun m => xdiv (xsub m (calc_mean (gneg data))) (calc_std qsqrt data))) (g := map hot_cell).
+    - rewrite <- map_map with (f := map (fun m => sdiv EA (ssub EA m (gmean (gneg data))) (gstd data))) (g := map (hot_cell EA)).
       apply wf_map. apply wf_map. exact W2.
-    - rewrite <- map_map with (g := fun r => map Z.opp (map hot_cell r))
-                             (f := map (fun m => xdiv (xsub m (calc_mean data)) (calc_std qsqrt data))).
-      rewrite <- map_map with (g := map Z.opp) (f := map hot_cell).
+    - rewrite <- map_map with (g := fun r => map Z.opp (map (hot_cell EA) r))
+                             (f := map (fun m => sdiv EA (ssub EA m (gmean data)) (gstd data))).
+      rewrite <- map_map with (g := map Z.opp) (f := map (hot_cell EA)).
       apply wf_map. apply wf_map. apply wf_map. exact W1.
     - intros i j Hi Hj.
       assert (E1 : forall (g : grid xq) (h : xq -> xq), wf g nx ny ->
-                 get2 0 (map (fun r => map hot_cell (map h r)) g) i j = hot_cell (h (get2 None g i j))).
+                 get2 0 (map (fun r => map (hot_cell EA) (map h r)) g) i j = hot_cell EA (h (get2 None g i j))).
       { intros g h Hg.
-        rewrite <- map_map with (f := map h) (g := map hot_cell).
-        rewrite (get2_map hot_cell None 0 _ nx ny) by (try apply wf_map; assumption).
+        rewrite <- map_map with (f := map h) (g := map (hot_cell EA)).
+        rewrite (get2_map (hot_cell EA) None 0 _ nx ny) by (try apply wf_map; assumption).
         rewrite (get2_map h None None _ nx ny) by assumption. reflexivity. }
       assert (E2 : forall (g : grid xq) (h : xq -> xq), wf g nx ny ->
-                 get2 0 (map (fun r => map Z.opp (map hot_cell (map h r))) g) i j = - hot_cell (h (get2 None g i j))).
+                 get2 0 (map (fun r => map Z.opp (map (hot_cell EA) (map h r))) g) i j = - hot_cell EA (h (get2 None g i j))).
       { intros g h Hg.
-        rewrite <- map_map with (f := map h) (g := fun r => map Z.opp (map hot_cell r)).
-        rewrite <- map_map with (f := map hot_cell) (g := map Z.opp).
+        rewrite <- map_map with (f := map h) (g := fun r => map Z.opp (map (hot_cell EA) r)).
+        rewrite <- map_map with (f := map (hot_cell EA)) (g := map Z.opp).
         rewrite (get2_map Z.opp 0 0 _ nx ny) by (try (apply wf_map; apply wf_map); assumption).
-        rewrite (get2_map hot_cell None 0 _ nx ny) by (try apply wf_map; assumption).
+        rewrite (get2_map (hot_cell EA) None 0 _ nx ny) by (try apply wf_map; assumption).
         rewrite (get2_map h None None _ nx ny) by assumption. reflexivity. }
-      rewrite E1 by exact W2. rewrite E2 by exact W1.
-      rewrite <- hot_cell_opp. apply hot_cell_compat. apply z_opp; [|apply calc_mean_gneg].
-      rewrite (conv_spec (gneg data) nk nx ny wkx wky) by assumption.
-      rewrite (conv_spec data nk nx ny wkx wky) by assumption.
+      cbn [T32 T64 ExactArith] in E1, E2 |- *.
+      rewrite (E1 _ (fun m => sdiv EA (ssub EA m (gmean (gneg data))) (gstd data)) W2).
+      rewrite (E2 _ (fun m => sdiv EA (ssub EA m (gmean data)) (gstd data)) W1).
+      rewrite <- hot_cell_opp. apply hot_cell_compat.
+      cbn [sdiv ssub ExactArith]. apply z_opp; [|apply gmean_odd].
+      pose proof (conv_spec EA (gneg data) nk nx ny wkx wky Hwkx Hwky Hneg Hnk Hnx i j Hi Hj) as C2.
+      pose proof (conv_spec EA data nk nx ny wkx wky Hwkx Hwky Hdata Hnk Hnx i j Hi Hj) as C1.
+      cbn [snan narrow T32 T64 ExactArith] in C1, C2 |- *. unfold xq in *. rewrite C1, C2.
       destruct ((wkx <=? i) && (i <? nx - wkx) && (wky <=? j) && (j <? ny - wky)); [apply wsum_gneg|exact I].
   Qed.
 End Negate.
+
+(* the exact meaning of np.nanmean / np.nanstd (sequential sum / count) satisfies the two hypotheses *)
+Theorem hotspots_negate qs data kernel nx ny wkx wky :
+  0 <= wkx -> 0 <= wky -> wf data nx ny -> wf kernel (2 * wkx + 1) (2 * wky + 1) -> 0 < nx -> 0 <= ny ->
+  hotspots_numpy (ExactArith qs) (seq_nanmean (ExactArith qs)) (seq_nanstd (ExactArith qs)) (gneg data) kernel =
+  option_map (map (map Z.opp))
+             (hotspots_numpy (ExactArith qs) (seq_nanmean (ExactArith qs)) (seq_nanstd (ExactArith qs)) data kernel).
+Proof.
+  intros. apply hotspots_negate_gen with (nx := nx) (ny := ny) (wkx := wkx) (wky := wky); try assumption.
+  - intros X. apply calc_mean_gneg.
+  - intros X. apply calc_std_gneg.
+Qed.
